@@ -15,7 +15,16 @@
        starts a second listener; the first one and its port are overwritten and lost
                                                              -> C11_pool_conserved_refuted_overlap
    What holds for ALL histories is C11_never_duplicated / C11_accounting; the conservation
-   theorem is proved for histories without those two situations (C11_pool_conserved_partial). *)
+   theorem is proved for histories without those two situations (C11_pool_conserved_partial).
+
+   For the REPAIRED shape of _start_passive_server (docs/fixes/C11-port-giveback+overlap.diff: give
+   the port back and close what is bound on BaseException, keep the listener handle across the
+   second suspension point, re-check connection.passive_server after the start-up) the full
+   statement is proved for every history: C11_pool_conserved_repaired / C11_quiescent_pool_repaired.
+   The translator recognises both shapes (Gen.PortPool.sps_giveback / sps_recheck, justified by
+   C11_ladder_obligation); once the fix is in /repo, gen_pcfg = repaired_pcfg by computation, the
+   _refuted theorems below stop compiling (as they must) and are to be replaced by
+   `C11_pool_conserved := C11_pool_conserved_repaired` (see docs/notes/C11.md). *)
 From Coq Require Import ZArith List Bool String Lia.
 From Verif Require Import Lib.Sx Lib.Facts Model.PortPool Proofs.PortPool.
 From Verif Require Gen.Dispatch Gen.PortPool.
@@ -35,7 +44,8 @@ Proof. vm_compute. reflexivity. Qed.
    NoAvailablePort to 421 + return False *)
 Lemma C11_ladder_obligation :
   check_ladder Gen.PortPool.sps_try Gen.PortPool.sps_handlers Gen.PortPool.sps_has_finally
-               Gen.PortPool.sps_has_else Gen.PortPool.passive_except = true.
+               Gen.PortPool.sps_has_else Gen.PortPool.passive_except
+               Gen.PortPool.sps_giveback Gen.PortPool.sps_recheck = true.
 Proof. vm_compute. reflexivity. Qed.
 
 Lemma C11_frame_obligation : check_pframe Gen.Dispatch.handlers = true.
@@ -49,7 +59,8 @@ Proof. vm_compute. reflexivity. Qed.
 
 Definition gen_pcfg (ports : list Z) : pconfig :=
   {| pc_ports := ports; pc_hier := gen_hier;
-     pc_fin := d_finally Gen.Dispatch.dispatcher; pc_loop_open := true |}.
+     pc_fin := d_finally Gen.Dispatch.dispatcher; pc_loop_open := true;
+     pc_giveback := Gen.PortPool.sps_giveback; pc_recheck := Gen.PortPool.sps_recheck |}.
 
 Lemma gen_pcfg_ok : forall ports, pcfg_ok (gen_pcfg ports).
 Proof. intros ports. constructor; [exact C11_finally_obligation|reflexivity]. Qed.
@@ -132,7 +143,8 @@ Print Assumptions C11_exhaustion_421.
 Theorem C11_hierarchy_needed :
   exists evs,
     let cfg := {| pc_ports := [30001]; pc_hier := false;
-                  pc_fin := d_finally Gen.Dispatch.dispatcher; pc_loop_open := true |} in
+                  pc_fin := d_finally Gen.Dispatch.dispatcher; pc_loop_open := true;
+                  pc_giveback := Gen.PortPool.sps_giveback; pc_recheck := Gen.PortPool.sps_recheck |} in
     quiet_run cfg (pinit cfg) evs = true
     /\ pp_lost (prun cfg (pinit cfg) evs) = [30001]
     /\ pp_pool (prun cfg (pinit cfg) evs) = [].
@@ -167,6 +179,57 @@ Proof.
   exists [PConnect; Pasv 0; Pasv 0; Resume 0 0 BindOk; Resume 0 1 BindOk; Resume 0 0 BindOk; Resume 0 0 BindOk; End_ 0].
   vm_compute. repeat split; repeat constructor.
 Qed.
+
+(* ---- the REPAIRED shape (candidate fix docs/fixes/C11-port-giveback+overlap.diff): the full statement,
+   for every pool, any number of sessions, every bind outcome, a session end at ANY moment (inside a
+   listener start-up included), overlapping PASV/EPSV included *)
+Definition repaired_pcfg (ports : list Z) : pconfig :=
+  {| pc_ports := ports; pc_hier := gen_hier;
+     pc_fin := d_finally Gen.Dispatch.dispatcher; pc_loop_open := true;
+     pc_giveback := true; pc_recheck := true |}.
+
+Lemma repaired_pcfg_ok : forall ports, pcfg_ok (repaired_pcfg ports).
+Proof. intros ports. constructor; [exact C11_finally_obligation|reflexivity]. Qed.
+
+(* the repaired shape is one check_ladder accepts (with exactly these flags), so after the fix the same
+   obligation C11_ladder_obligation ties the source to repaired_pcfg *)
+Example C11_repaired_shape_accepted :
+  check_ladder (try_fixed true) handlers_fixed false false Gen.PortPool.passive_except true true = true
+  /\ check_ladder (try_fixed true) handlers_fixed false false Gen.PortPool.passive_except false false = false
+  /\ check_ladder try_today handlers_today false false Gen.PortPool.passive_except true true = false.
+Proof. vm_compute. auto. Qed.
+
+Theorem C11_pool_conserved_repaired : forall ports evs,
+  let st := prun (repaired_pcfg ports) (pinit (repaired_pcfg ports)) evs in
+  (forall p, occ p (ports_of (pp_pool st)) + held p st = occ p ports)
+  /\ pp_lost st = [] /\ pp_orphans st = [].
+Proof.
+  intros ports evs.
+  exact (pool_conserved_fixed (repaired_pcfg ports) evs (repaired_pcfg_ok ports) C11_hierarchy_obligation eq_refl eq_refl).
+Qed.
+Print Assumptions C11_pool_conserved_repaired.
+
+Theorem C11_quiescent_pool_repaired : forall ports evs,
+  let st := prun (repaired_pcfg ports) (pinit (repaired_pcfg ports)) evs in
+  Forall (fun s => p_live s = false) (pp_sess st) ->
+  forall p, occ p (ports_of (pp_pool st)) = occ p ports.
+Proof.
+  intros ports evs.
+  exact (quiescent_pool_fixed (repaired_pcfg ports) evs (repaired_pcfg_ok ports) C11_hierarchy_obligation eq_refl eq_refl).
+Qed.
+Print Assumptions C11_quiescent_pool_repaired.
+
+(* the three refuting histories lose nothing on the repaired shape *)
+Example C11_repaired_on_witnesses :
+  let lostof ports evs := (pp_lost (prun (repaired_pcfg ports) (pinit (repaired_pcfg ports)) evs),
+                           pp_orphans (prun (repaired_pcfg ports) (pinit (repaired_pcfg ports)) evs),
+                           ports_of (pp_pool (prun (repaired_pcfg ports) (pinit (repaired_pcfg ports)) evs))) in
+  lostof [30001; 30002] [PConnect; Pasv 0; End_ 0] = ([], [], [30001; 30002])
+  /\ lostof [30001; 30002] [PConnect; Pasv 0; Resume 0 0 BindOk; End_ 0] = ([], [], [30001; 30002])
+  /\ lostof [30001; 30002; 30003]
+       [PConnect; Pasv 0; Pasv 0; Resume 0 0 BindOk; Resume 0 1 BindOk; Resume 0 0 BindOk; Resume 0 0 BindOk; End_ 0]
+     = ([], [], [30001; 30002; 30003]).
+Proof. vm_compute. auto. Qed.
 
 (* non-vacuity: a quiet history with a busy port, a refused session (421), an OSError and an
    orderly end, on which the hypotheses of the partial theorem hold *)
